@@ -68,8 +68,8 @@ Section Monitor.
     | Some q => map (cmap (fun v => div N v q)) (my other)
     end.
 
-  (* Monitor.extend(monitor) ; Monitor.prepend(monitor)  (monitor is another object than self:
-     a.extend(a) with k set and a.prepend(a) do not terminate in the implementation) *)
+  (* Monitor.extend(monitor) ; Monitor.prepend(monitor).  The argument's lists are snapshotted before self is
+     changed, so monitor may be self: a.extend(a) / a.prepend(a) double the contents *)
   Definition extend (self other : monitor) : monitor :=
     mkMon (mx self ++ mx other) (my self ++ get_y_for self other) (mid self ++ mid other)
           (minfo self ++ minfo other) (mk self).
@@ -145,14 +145,14 @@ Section Monitor.
   | OInfo (t : nat) (msg : M)                             (* st[t].info(msg) *)
   | OSlice (t : nat) (s : pyslice)                        (* st.append(st[t][s]) *)
   | OAdd (a b : nat)                                      (* st.append(st[a] + st[b]) *)
-  | OExtend (a b : nat)                                   (* st[a].extend(st[b]),  a <> b *)
-  | OPrepend (a b : nat).                                 (* st[a].prepend(st[b]), a <> b *)
+  | OExtend (a b : nat)                                   (* st[a].extend(st[b])   (a = b allowed) *)
+  | OPrepend (a b : nat).                                 (* st[a].prepend(st[b])  (a = b allowed) *)
 
   Definition upd (st : store) (t : nat) (m : monitor) : store :=
     firstn t st ++ m :: skipn (S t) st.
 
   (* None = the operation raises (bad slice step) or is outside the modelled language (index not in
-     the store, a = b for extend/prepend) *)
+     the store) *)
   Definition step (st : store) (o : op) : option store :=
     match o with
     | ONew k => Some (st ++ [new_monitor k])
@@ -164,11 +164,11 @@ Section Monitor.
     | OAdd a b => match nth_error st a, nth_error st b with
                   | Some ma, Some mb => Some (st ++ [madd ma mb])
                   | _, _ => None end
-    | OExtend a b => if Nat.eqb a b then None else
+    | OExtend a b =>
                   match nth_error st a, nth_error st b with
                   | Some ma, Some mb => Some (upd st a (extend ma mb))
                   | _, _ => None end
-    | OPrepend a b => if Nat.eqb a b then None else
+    | OPrepend a b =>
                   match nth_error st a, nth_error st b with
                   | Some ma, Some mb => Some (upd st a (prepend ma mb))
                   | _, _ => None end
@@ -189,12 +189,14 @@ Section Monitor.
   Definition call_all (m : monitor) (rs : list record) : monitor :=
     fold_left (fun m r => call m (fst (fst r)) (snd (fst r)) (snd r)) rs m.
 
-  (* ---- munge.write_support_file / write_converge_file: the cost column they write ----
-     read_monitor gives mon.y (already divided by k); write_monitor stores it with k=None; then
-     "monitor.k = mon.k" is set and write_raw_file reads monitor.y, dividing by k a second time *)
+  (* ---- munge.write_raw_file / write_support_file / write_converge_file: the cost column they write ----
+     write_raw_file writes mon.y.  The other two build  write_monitor(steps, read_monitor(mon).y, k=mon.k):
+     a monitor with k = mon.k whose stored costs are mon.y scaled by k again; write_raw_file then writes
+     that monitor's y *)
   Definition raw_file_cost (m : monitor) : list cost := get_y m.
-  Definition support_file_cost (m : monitor) : list cost :=
-    get_y (mkMon (mx m) (get_y m) (mid m) [] (mk m)).
+  Definition write_monitor_y (m : monitor) : monitor :=
+    mkMon (mx m) (map (scale (mk m)) (get_y m)) (mid m) [] (mk m).
+  Definition support_file_cost (m : monitor) : list cost := get_y (write_monitor_y m).
 End Monitor.
 
 Arguments CS {N} v.
@@ -232,5 +234,6 @@ Arguments step {N X I M} st o.
 Arguments run {N X I M} st ops.
 Arguments call_all {N X I M} m rs.
 Arguments raw_file_cost {N X I M} m.
+Arguments write_monitor_y {N X I M} m.
 Arguments support_file_cost {N X I M} m.
 Arguments py_index n i : simpl never.
